@@ -408,7 +408,7 @@ ENDINGS = [b"/", b".", b"%2e", b"%2f", b"%252e", b"%252f", b"/.", b"./", b"..", 
 QUERIES = [b"", b"?", b"?x=1", b"?x=2", b"?../..", b"?/../secret.txt", b"?x=1#f", b"#f", b"?%ff", b"?a?b"]
 # request targets that are not in origin form: absolute form (any scheme, userinfo, port, IPv6 literal), authority form, "*",
 # text without a leading '/': kvarn's HTTP/1 reader (and the in-process harness) glue the target to "http://<Host header>"
-OTHER_FORMS = [b"*", b"http://localhost/../secret.txt", b"http://localhost/index.html", b"http://localhost", b"http://localhost/", b"HTTP://LOCALHOST/a/b.txt",
+OTHER_FORMS = [b"*", b"/\xc3\xa9?\xc3\xa9#\xc3", b"/a#\xff", b"/a?\xff", b"/\xff", "/é#é".encode(), b"http://localhost/../secret.txt", b"http://localhost/index.html", b"http://localhost", b"http://localhost/", b"HTTP://LOCALHOST/a/b.txt",
                b"https://localhost/../secret.txt", b"http://other.example/../secret.txt", b"http://localhost:80/secret.txt", b"ftp://h/../x",
                b"http://u:p@localhost/../secret.txt", b"http://[::1]/../secret.txt", b"//localhost/../secret.txt", b"http:/../secret.txt",
                b"http:///../secret.txt", b"://x/../secret.txt", b"localhost", b"localhost:80", b"example.com", b"../secret.txt", b"..", b".", b"a",
